@@ -873,8 +873,8 @@ impl Model for ArenaModel {
                     vec![Answer::Refuse, Answer::GrantV(12), Answer::RefuseRest, Answer::RefuseAbove(12)]
                 }
             }
-            Profile::Core | Profile::AllocApi => vec![Answer::Refuse, Answer::GrantV(5), Answer::GrantV(12)],
-            _ => vec![Answer::Refuse, Answer::GrantV(12)],
+            Profile::Core | Profile::AllocApi => vec![Answer::Refuse, Answer::RefuseRest, Answer::GrantV(5), Answer::GrantV(12)],
+            _ => vec![Answer::Refuse, Answer::RefuseRest, Answer::GrantV(12)],
         }
     }
 
